@@ -209,6 +209,23 @@ def _is_pos(v):
     return isinstance(v, VNum) and v.pos
 
 
+def _nonpositive_real(arg):
+    """An argument selected so that its real part is <= 0: where(Re u < 0, u, -u) (also <=), or -abs(u).  exp of it is bounded by 1."""
+    at = arg.single_atom() if hasattr(arg, "single_atom") else None
+    if isinstance(at, T.App) and at.op in ("where", "x:numpy.where", "x:torch.where") and len(at.args) == 3:
+        c, u, v = at.args
+        ca = c.single_atom() if hasattr(c, "single_atom") else None
+        if isinstance(ca, T.App) and ca.op in ("cmp_Lt", "cmp_LtE") and hasattr(ca.args[1], "is_zero") and ca.args[1].is_zero() and hasattr(u, "terms") and hasattr(v, "terms") and (u + v).is_zero():
+            lhs = ca.args[0]
+            la = lhs.single_atom() if hasattr(lhs, "single_atom") else None
+            if lhs == u or (isinstance(la, T.App) and la.op in ("npreal", "idx0") and la.args[0] == u):
+                return True
+    sm = arg.single_mono() if hasattr(arg, "single_mono") else None
+    if sm is not None and sm[1] < 0 and len(sm[0]) == 1 and isinstance(sm[0][0][0], T.App) and sm[0][0][0].op == "abs" and sm[0][0][1] == 1:
+        return True
+    return False
+
+
 def tensor_binop(it, op, a, b, node):
     kinds = []
     sa = sb = ()
@@ -239,6 +256,14 @@ def tensor_binop(it, op, a, b, node):
         t = complexwise(op, ta, tb, sa, sb)
     kind = "tensor" if "tensor" in kinds else "ndarray"
     r = it.fresh(t, shape, kind, node)
+    if op == "Div" and ta is not None and tb is not None and hasattr(ta, "single_mono") and hasattr(tb, "terms"):
+        # numeric catalogue: exp(x) / (1 + exp(x)) with an unbounded x is inf / inf = nan for x > 709.78
+        sm_ = ta.single_mono()
+        if sm_ is not None and sm_[1] == 1 and len(sm_[0]) == 1 and isinstance(sm_[0][0][0], T.Exp) and sm_[0][0][1] == 1 and not sm_[0][0][0].arg.is_const() and (tb - T.ONE) == ta and not _nonpositive_real(sm_[0][0][0].arg):
+            it.numeric.append((it.site(node), "exp(x) / (1 + exp(x)) [overflow]", sm_[0][0][0].arg, tuple(fr.func.qualname for fr in it.frames if fr.func is not None)))
+    ws = [x.obj.float_width() for x in (a, b) if isinstance(x, VTens)]
+    if ws and any(w in (32, 64) for w in ws):
+        r.obj.fw = max(w or 64 for w in ws)  # type promotion (an untracked operand: the library's floats are float64)
     if op == "Mult" and isinstance(a, VTens) and isinstance(b, VTens) and ta is not None and tb is not None:
         r.obj.prod_parts = (t, ta, sa, tb, sb)  # lets sum(-1) of a (.., n) x (n,) product be read as a matrix-vector product
     return r
@@ -248,6 +273,11 @@ def unaryop(it, op, v, node):
     if op == "Not":
         t = it.truth(v)
         if t is None:
+            if isinstance(v, VTens) and v.term is not None and v.shape is not None and all(d == 1 for d in v.shape):
+                # `not t` of a one-element tensor / array: the negation of its truth value (see builtins.bool)
+                at_ = v.term.single_atom()
+                inner = v.term if (isinstance(at_, T.App) and at_.op in ("any", "all", "tensor_equal", "lnot")) else T.app("cmp_NotEq", v.term, T.ZERO)
+                return VNum("bool", T.app("cmp_Eq", inner, T.ZERO))
             if isinstance(v, VNum) and v.term is not None:
                 at = v.term.single_atom()
                 if v.kind == "bool" and at is not None and isinstance(at, T.App) and at.op.startswith("cmp_"):
